@@ -84,6 +84,7 @@ thread_local! {
 /// Reset all per-thread hook state
 pub fn reset() {
     SINK.with(|s| *s.borrow_mut() = Sink::default());
+    GCS.with(|g| g.borrow_mut().clear());
 }
 
 pub fn set_budget(budget: Option<u64>) {
@@ -312,6 +313,28 @@ pub(crate) fn shadow_deref(addr: usize) -> bool {
 
 use crate::object::Object;
 
+thread_local! {
+    /// (address, id, alive) of the collectors seen on this thread
+    static GCS: RefCell<Vec<(usize, usize, bool)>> = RefCell::new(Vec::new());
+}
+
+/// A small id for the collector at `addr` that is not reused when a later collector lives
+/// at the same address
+fn gc_id(addr: usize, dropping: bool) -> usize {
+    GCS.with(|g| {
+        let mut g = g.borrow_mut();
+        let n = g.len();
+        if let Some(e) = g.iter_mut().rev().find(|e| e.0 == addr && e.2) {
+            if dropping {
+                e.2 = false;
+            }
+            return e.1;
+        }
+        g.push((addr, n + 1, !dropping));
+        n + 1
+    })
+}
+
 fn ids_of(objs: &[Object]) -> Vec<u64> {
     objs.iter()
         .filter(|o| o.is_heap_allocated())
@@ -322,7 +345,7 @@ fn ids_of(objs: &[Object]) -> Vec<u64> {
 pub(crate) fn gc_trace(gc: usize, o: Object) {
     if heap_recording() {
         emit(Event::Trace {
-            gc,
+            gc: gc_id(gc, false),
             id: shadow_id(o.as_ptr() as usize),
         });
     }
@@ -331,7 +354,7 @@ pub(crate) fn gc_trace(gc: usize, o: Object) {
 pub(crate) fn gc_untrace(gc: usize, o: Object) {
     if heap_recording() {
         emit(Event::Untrace {
-            gc,
+            gc: gc_id(gc, false),
             id: shadow_id(o.as_ptr() as usize),
         });
     }
@@ -344,7 +367,7 @@ pub(crate) fn gc_run_begin(gc: usize, managed: &[Object], roots: &[&[Object]]) {
             given.extend(ids_of(r));
         }
         emit(Event::RunBegin {
-            gc,
+            gc: gc_id(gc, false),
             managed: ids_of(managed),
             given_roots: given,
         });
@@ -354,7 +377,7 @@ pub(crate) fn gc_run_begin(gc: usize, managed: &[Object], roots: &[&[Object]]) {
 pub(crate) fn gc_run_end(gc: usize, managed: &[Object]) {
     if heap_recording() {
         emit(Event::RunEnd {
-            gc,
+            gc: gc_id(gc, false),
             managed: ids_of(managed),
         });
     }
@@ -363,7 +386,7 @@ pub(crate) fn gc_run_end(gc: usize, managed: &[Object]) {
 pub(crate) fn gc_drop(gc: usize, managed: &[Object]) {
     if heap_recording() {
         emit(Event::Drop {
-            gc,
+            gc: gc_id(gc, true),
             managed: ids_of(managed),
         });
     }
